@@ -366,6 +366,34 @@ Section Seg.
         apply Hio. exact H.
   Qed.
 
+
+  (* ------------------------------------------------------------ Clear *)
+  Lemma fold_sub_sizes l c : fold_left (fun c t => c - tlen t)%Z l c = (c - sum_sizes l)%Z.
+  Proof. revert c; induction l; intros c; simpl; [lia|]. rewrite IHl. unfold tlen. lia. Qed.
+  Lemma sum_sizes_clear l : sum_sizes (map tclear l) = 0%Z.
+  Proof. induction l; simpl; auto. Qed.
+  Lemma seg_clear m i : seg (sm_clear m) i = tclear (seg m i).
+  Proof. unfold seg, sm_clear. simpl. change dummy_table with (tclear dummy_table) at 1. apply map_nth. Qed.
+
+  Theorem sm_clear_spec m : SWF m ->
+    SWF (sm_clear m) /\ nsegs (sm_clear m) = nsegs m /\ sm_count (sm_clear m) = 0%Z /\
+    forall k, sabs (sm_clear m) k = None.
+  Proof.
+    intros S.
+    assert (Hn : nsegs (sm_clear m) = nsegs m) by (unfold nsegs, sm_clear; simpl; apply map_length).
+    assert (Hc : sm_count (sm_clear m) = 0%Z).
+    { unfold sm_clear. simpl. rewrite fold_sub_sizes, (s_count m S). lia. }
+    assert (Ha : forall i k, i < nsegs m -> abs (seg (sm_clear m) i) k = None).
+    { intros i k Hi. rewrite seg_clear. apply (tclear_spec mix (seg m i)). apply S. exact Hi. }
+    split; [|split; [exact Hn|split; [exact Hc|]]].
+    - constructor; rewrite ?Hn.
+      + apply S.
+      + intros i Hi. rewrite seg_clear. apply (tclear_spec mix (seg m i)). apply S. exact Hi.
+      + intros i k Hi Hne. rewrite Ha in Hne by auto. congruence.
+      + rewrite Hc. unfold sm_clear. simpl. rewrite sum_sizes_clear. reflexivity.
+    - intros k. unfold sabs. apply Ha. unfold ksi. rewrite Hn. apply sidx_lt. apply S.
+  Qed.
+
   (* ------------------------------------------------------ constructor *)
   Lemma sum_repeat t n : sum_sizes (repeat t n) = (Z.of_nat n * t_size t)%Z.
   Proof. induction n; simpl repeat; simpl sum_sizes; [lia|]. rewrite IHn. lia. Qed.
